@@ -6,8 +6,10 @@ import Magog.Lemmas.CountGen
     number `evalB` computed from the generated constants and piece-square tables, `evalB` is below
     `Gen.ScoreCloseToMate`, and therefore non-mate evaluations are far inside the mate-score band.
 
-    Contents: `BlendBounded` (parameter assumption on the float blend), `pstMaxAbs` (kernel-computed table
-    maximum), `countMoves_le` (mobility bound from the list lengths), `pieceSquareScore_bound`,
+    Contents: `BlendBounded` (parameter assumption on the float blend: at most `blendK`-fold extrapolation on
+    material sums `≤ maxMaterialSum`), `exactBlend` / `blendBounded_exact` (the exact interpolation satisfies it),
+    `old_blend_hypothesis_false_of_exact`, `pstMaxAbs` (kernel-computed table maximum), `countMoves_le` (mobility
+    bound from the list lengths), `nonPawnMaterial_le` / `materialSum_le`, `pieceSquareScore_bound`,
     `lazyEvaluate_cases` / `eval_bound`, `evalB_lt`, `evalRange_of_inv` (discharges C04's `EvalRange`). -/
 
 namespace Magog.Lemmas.EvalBound
@@ -15,11 +17,124 @@ open Magog Magog.Model Magog.Lemmas.AlphaBeta
 
 /-! ### the parameter assumption on the king-table interpolation -/
 
-/-- an interpolation between two table values stays within the bound of the two values (whatever the material
-    sum). The driver's `float64` blend is compared with Go on its complete domain on every run; this is the
-    recorded parameter assumption under which the evaluation bound holds. -/
+/-- the largest generated material value (the queen's, 900 on the current constants) -/
+def matMax : Nat :=
+  max Gen.MaterialPawnScore (max Gen.MaterialKnightScore (max Gen.MaterialBishopScore
+    (max Gen.MaterialRookScore Gen.MaterialQueenScore)))
+
+theorem mat_le : Gen.MaterialPawnScore ≤ matMax ∧ Gen.MaterialKnightScore ≤ matMax ∧
+    Gen.MaterialBishopScore ≤ matMax ∧ Gen.MaterialRookScore ≤ matMax ∧ Gen.MaterialQueenScore ≤ matMax := by
+  unfold matMax
+  omega
+
+/-- the largest non-pawn material sum the two piece lists of a well-formed position can hold: `pieceCap` men a
+    side, each worth at most `matMax` (27 000 on the current constants; `nonPawnMaterial_le`) -/
+def maxMaterialSum : Nat := 2 * Gen.pieceCap * matMax
+
+/-- the extrapolation factor of the king-table interpolation, computed from the generated constants:
+    `⌈2·maxMaterialSum / StartingSumOfMaterial⌉ − 1` (= 8 on the current constants).
+
+    The engine's game-phase factor `f = materialSum / StartingSumOfMaterial` is NOT clamped to `[0, 1]`
+    (`math.Min(f, 1.0)` in `gamePhaseFactor` discards its result), so with promoted pieces `f > 1` and
+    `f·mid + (1 − f)·end` extrapolates beyond the two table values: for `|mid|, |end| ≤ B` it is bounded by `B`
+    when `f ≤ 1` and by `(2f − 1)·B` when `f ≥ 1`, and `f ≤ maxMaterialSum / StartingSumOfMaterial`. -/
+def blendK : Nat :=
+  (2 * maxMaterialSum + Gen.StartingSumOfMaterial - 1) / Gen.StartingSumOfMaterial - 1
+
+/-- the parameter assumption on the king-table interpolation: on every material sum a well-formed position can
+    have (`msum ≤ maxMaterialSum`), the blend of two table values bounded by `B` is bounded by `blendK · B`.
+
+    This is true of the real-valued formula the Go code computes in `float64`, including the extrapolating range
+    `msum > StartingSumOfMaterial` (`blendBounded_exact`). The earlier form of this assumption (result `≤ B` for
+    every `msum`) is FALSE of the engine (`old_blend_hypothesis_false_of_exact`: the Go binary returns
+    `blend 12800 (-50) 50 = -150` and `blend 27000 50 (-50) = 371`). The driver's `float64` blend is compared with
+    Go on its complete domain on every run. The constant is conservative: the real maximum over the generated
+    tables and `msum ≤ 27000` is 371 < 8·50 = 400. -/
 def BlendBounded (blend : Blend) (B : Nat) : Prop :=
-  ∀ (msum : Nat) (mid end_ : Int), mid.natAbs ≤ B → end_.natAbs ≤ B → (blend msum mid end_).natAbs ≤ B
+  ∀ (msum : Nat) (mid end_ : Int), msum ≤ maxMaterialSum → mid.natAbs ≤ B → end_.natAbs ≤ B →
+    (blend msum mid end_).natAbs ≤ blendK * B
+
+/-- the facts about the generated constants the proofs below use (decided on the constants) -/
+theorem startingSum_pos : 0 < Gen.StartingSumOfMaterial := by decide
+
+theorem one_le_blendK : 1 ≤ blendK := by decide
+
+/-- `blendK` is large enough: `2·maxMaterialSum − StartingSum ≤ blendK · StartingSum` -/
+theorem blendK_spec : 2 * maxMaterialSum ≤ blendK * Gen.StartingSumOfMaterial + Gen.StartingSumOfMaterial := by
+  decide
+
+example : matMax = 900 ∧ maxMaterialSum = 27000 ∧ Gen.StartingSumOfMaterial = 6400 ∧ blendK = 8 := by decide
+
+/-- the generated constant is the starting sum of the non-pawn material of both sides, as in engine/score.go -/
+example : Gen.StartingSumOfMaterial = 2 * (Gen.MaterialQueenScore + 2 * Gen.MaterialRookScore +
+    2 * Gen.MaterialBishopScore + 2 * Gen.MaterialKnightScore) := by decide
+
+/-- the trivial blend `mid` satisfies the parameter assumption (non-vacuity) -/
+theorem blendBounded_mid (B : Nat) : BlendBounded (fun _ m _ => m) B := fun _ _ _ _ h _ =>
+  Nat.le_trans h (Nat.le_mul_of_pos_left B one_le_blendK)
+
+/-! ### the exact interpolation satisfies the assumption -/
+
+/-- the mathematically exact king-table interpolation `f·mid + (1 − f)·end`, `f = msum / StartingSum`, in integer
+    arithmetic, truncated toward zero like Go's `int(float64)`. The Go code approximates this in `float64`. -/
+def exactBlend (msum : Nat) (mid end_ : Int) : Int :=
+  Int.tdiv ((msum : Int) * mid + ((Gen.StartingSumOfMaterial : Int) - (msum : Int)) * end_)
+    (Gen.StartingSumOfMaterial : Int)
+
+theorem natAbs_natMul_le (a : Nat) {x : Int} {B : Nat} (h : x.natAbs ≤ B) : ((a : Int) * x).natAbs ≤ a * B := by
+  rw [Int.natAbs_mul, Int.natAbs_natCast]
+  exact Nat.mul_le_mul_left a h
+
+/-- the numerator of the exact interpolation is bounded by `StartingSum · blendK · B` on `msum ≤ maxMaterialSum`
+    (generic in the constants: only `1 ≤ K` and `2·M ≤ K·S + S` are used) -/
+theorem exactNum_bound {S M K : Nat} (hK : 1 ≤ K) (hS : 2 * M ≤ K * S + S) {msum : Nat} {mid end_ : Int} {B : Nat}
+    (hm : msum ≤ M) (h1 : mid.natAbs ≤ B) (h2 : end_.natAbs ≤ B) :
+    ((msum : Int) * mid + ((S : Int) - (msum : Int)) * end_).natAbs ≤ S * (K * B) := by
+  refine Nat.le_trans (Int.natAbs_add_le _ _) ?_
+  have a1 := natAbs_natMul_le msum h1
+  by_cases hle : msum ≤ S
+  · obtain ⟨d, rfl⟩ := Nat.exists_eq_add_of_le hle
+    have e : ((msum + d : Nat) : Int) - (msum : Int) = (d : Int) := by omega
+    rw [e]
+    have a2 := natAbs_natMul_le d h2
+    have a3 : (msum + d) * B ≤ (msum + d) * (K * B) :=
+      Nat.mul_le_mul_left _ (Nat.le_mul_of_pos_left B hK)
+    rw [Nat.add_mul] at a3
+    omega
+  · obtain ⟨d, rfl⟩ := Nat.exists_eq_add_of_le (Nat.le_of_not_le hle)
+    have e : (S : Int) - ((S + d : Nat) : Int) = -(d : Int) := by omega
+    rw [e, Int.neg_mul, Int.natAbs_neg]
+    have a2 := natAbs_natMul_le d h2
+    have a3 : (S + d + d) * B ≤ (K * S) * B := by
+      apply Nat.mul_le_mul_right
+      generalize K * S = KS at *
+      omega
+    rw [Nat.mul_comm K S, Nat.mul_assoc] at a3
+    rw [Nat.add_mul] at a3
+    omega
+
+/-- **the exact interpolation satisfies the parameter assumption**, for every bound `B`, including the
+    extrapolating range `StartingSum < msum ≤ maxMaterialSum` -/
+theorem blendBounded_exact (B : Nat) : BlendBounded exactBlend B := by
+  intro msum mid end_ hm h1 h2
+  unfold exactBlend
+  rw [Int.natAbs_tdiv, Int.natAbs_natCast]
+  exact Nat.div_le_of_le_mul (exactNum_bound one_le_blendK blendK_spec hm h1 h2)
+
+/-- the exact interpolation takes the values the Go binary returns on the extrapolating range -/
+example : exactBlend 12800 (-50) 50 = -150 ∧ exactBlend 27000 50 (-50) = 371 ∧ exactBlend 6400 50 (-50) = 50 ∧
+    exactBlend 0 50 (-50) = -50 ∧ exactBlend 3200 50 (-50) = 0 := by decide
+
+/-- the earlier form of the parameter assumption ("the blend of two values within `B` is within `B`, whatever the
+    material sum") is false of the exact interpolation, at the table bound `B = 50`, on material sums a
+    well-formed position can have: 12 800 and 27 000 are `≤ maxMaterialSum` -/
+theorem old_blend_hypothesis_false_of_exact :
+    ¬ (∀ (msum : Nat) (mid end_ : Int), mid.natAbs ≤ 50 → end_.natAbs ≤ 50 →
+        (exactBlend msum mid end_).natAbs ≤ 50) := by
+  intro h
+  have := h 12800 (-50) 50 (by decide) (by decide)
+  revert this
+  decide
 
 /-! ### the generated tables -/
 
@@ -79,16 +194,6 @@ theorem tb_queensBlack : TableBounded pstQueensBlack := tb_of_mem (by simp [allP
 theorem tb_pawnsBlack : TableBounded pstPawnsBlack := tb_of_mem (by simp [allPst])
 theorem tb_kingMidBlack : TableBounded pstKingMidBlack := tb_of_mem (by simp [allPst])
 theorem tb_kingEndBlack : TableBounded pstKingEndBlack := tb_of_mem (by simp [allPst])
-
-/-- the largest generated material value -/
-def matMax : Nat :=
-  max Gen.MaterialPawnScore (max Gen.MaterialKnightScore (max Gen.MaterialBishopScore
-    (max Gen.MaterialRookScore Gen.MaterialQueenScore)))
-
-theorem mat_le : Gen.MaterialPawnScore ≤ matMax ∧ Gen.MaterialKnightScore ≤ matMax ∧
-    Gen.MaterialBishopScore ≤ matMax ∧ Gen.MaterialRookScore ≤ matMax ∧ Gen.MaterialQueenScore ≤ matMax := by
-  unfold matMax
-  omega
 
 /-! ### mobility: `countMoves` is bounded by the list lengths -/
 
@@ -349,19 +454,55 @@ theorem sidePst_bound {board : Array Nat} {s : Side} {tN tB tR tQ tP : Array Int
           · rw [pure_ok] at hv
             omega
 
+/-- the non-pawn material of a piece list is at most `matMax` per listed square (no invariant needed) -/
+theorem nonPawnMaterial_le_length {board : Array Nat} {pieces : List Nat} {m : Nat}
+    (h : nonPawnMaterial board pieces = .ok m) : m ≤ pieces.length * matMax := by
+  unfold nonPawnMaterial at h
+  refine sumM'_le _ matMax pieces (fun s _ n hn => ?_) m h
+  simp only [bind_ok, pure_ok] at hn
+  obtain ⟨pc, _, rfl⟩ := hn
+  obtain ⟨_, m2, m3, m4, m5⟩ := mat_le
+  unfold materialOf
+  repeat' split
+  all_goals omega
+
+/-- on a well-formed position each side's non-pawn material is at most `pieceCap · matMax`, so the material sum
+    the blend is applied to is at most `maxMaterialSum` -/
+theorem nonPawnMaterial_le {p : Position} (hp : Inv p) :
+    (∀ wm, nonPawnMaterial p.board p.whitePieces = .ok wm → wm ≤ Gen.pieceCap * matMax) ∧
+    (∀ bm, nonPawnMaterial p.board p.blackPieces = .ok bm → bm ≤ Gen.pieceCap * matMax) := by
+  have l1 := hp.wLen
+  have l2 := hp.bLen
+  simp only [pieceCap] at l1 l2
+  constructor
+  · intro wm h
+    exact Nat.le_trans (nonPawnMaterial_le_length h) (Nat.mul_le_mul_right matMax (by omega))
+  · intro bm h
+    exact Nat.le_trans (nonPawnMaterial_le_length h) (Nat.mul_le_mul_right matMax (by omega))
+
+theorem materialSum_le {p : Position} (hp : Inv p) {wm bm : Nat}
+    (hw : nonPawnMaterial p.board p.whitePieces = .ok wm) (hb : nonPawnMaterial p.board p.blackPieces = .ok bm) :
+    wm + bm ≤ maxMaterialSum := by
+  have h1 := (nonPawnMaterial_le hp).1 wm hw
+  have h2 := (nonPawnMaterial_le hp).2 bm hb
+  unfold maxMaterialSum
+  rw [Nat.mul_assoc]
+  omega
+
 /-- bound of the piece-square score: one side at most `cap` men worth `matMax + T` each, the other side at
-    least `−T` each, and two blended king-table values -/
-def psB : Nat := Gen.pieceCap * (matMax + pstMaxAbs) + Gen.pieceCap * pstMaxAbs + 2 * pstMaxAbs
+    least `−T` each, and two blended king-table values, each within `blendK · T` -/
+def psB : Nat := Gen.pieceCap * (matMax + pstMaxAbs) + Gen.pieceCap * pstMaxAbs + 2 * (blendK * pstMaxAbs)
 
 theorem pieceSquareScore_bound {blend : Blend} {p : Position} (hp : Inv p)
     (hb : BlendBounded blend pstMaxAbs) {c : Int} (h : pieceSquareScore blend p = .ok c) : c.natAbs ≤ psB := by
   unfold pieceSquareScore at h
   simp only [bind_ok, pure_ok] at h
-  obtain ⟨wm, _, bm, _, w, hw, wkm, hwkm, wke, hwke, b, hbk, bkm, hbkm, bke, hbke, h⟩ := h
+  obtain ⟨wm, hwm, bm, hbm, w, hw, wkm, hwkm, wke, hwke, b, hbk, bkm, hbkm, bke, hbke, h⟩ := h
+  have hms := materialSum_le hp hwm hbm
   have hw' := sidePst_bound tb_knightsWhite tb_bishopsWhite tb_rooksWhite tb_queensWhite tb_pawnsWhite hw
   have hb' := sidePst_bound tb_knightsBlack tb_bishopsBlack tb_rooksBlack tb_queensBlack tb_pawnsBlack hbk
-  have k1 := hb (wm + bm) wkm wke (tb_kingMidWhite _ _ _ hwkm) (tb_kingEndWhite _ _ _ hwke)
-  have k2 := hb (wm + bm) bkm bke (tb_kingMidBlack _ _ _ hbkm) (tb_kingEndBlack _ _ _ hbke)
+  have k1 := hb (wm + bm) wkm wke hms (tb_kingMidWhite _ _ _ hwkm) (tb_kingEndWhite _ _ _ hwke)
+  have k2 := hb (wm + bm) bkm bke hms (tb_kingMidBlack _ _ _ hbkm) (tb_kingEndBlack _ _ _ hbke)
   have l1 := hp.wLen
   have l2 := hp.bLen
   simp only [Position.side, if_true, Bool.false_eq_true, if_false] at hw' hb'
@@ -375,6 +516,7 @@ theorem pieceSquareScore_bound {blend : Blend} {p : Position} (hp : Inv p)
   unfold psB
   generalize blend (wm + bm) wkm wke = kw at *
   generalize blend (wm + bm) bkm bke = kb at *
+  generalize blendK * pstMaxAbs = KB at *
   split at h <;> omega
 
 /-! ### the lazy / full evaluation -/
@@ -416,8 +558,9 @@ def mobB : Nat := maxMoves * Gen.MobilityScoreFactor
 /-- **the evaluation bound**: computed from the generated constants and tables only -/
 def evalB : Nat := psB + mobB
 
-/-- `evalB` unfolded: 15·(900 + 50) + 15·50 + 2·50 + (64·15 + 10)·5 on the current constants -/
-theorem evalB_eq : evalB = Gen.pieceCap * (matMax + pstMaxAbs) + Gen.pieceCap * pstMaxAbs + 2 * pstMaxAbs +
+/-- `evalB` unfolded: 15·(900 + 50) + 15·50 + 2·(8·50) + (64·15 + 10)·5 = 20 650 on the current constants -/
+theorem evalB_eq : evalB = Gen.pieceCap * (matMax + pstMaxAbs) + Gen.pieceCap * pstMaxAbs +
+    2 * (blendK * pstMaxAbs) +
     (64 * Gen.pieceCap + 10) * Gen.MobilityScoreFactor := by
   unfold evalB psB mobB maxMoves
   rfl
@@ -446,8 +589,9 @@ theorem lazyEvaluate_bound {blend : Blend} {p : Position} (hp : Inv p) (hb : Ble
       unfold evalB mobB
       omega
 
-/-- `eval_bound`: on a well-formed position, with a bounded blend, the piece-square score, the lazy evaluation
-    (any window) and the full evaluation are bounded by `evalB`, except for the exact mate score of a checkmate -/
+/-- `eval_bound`: on a well-formed position, with a blend satisfying `BlendBounded`, the piece-square score, the
+    lazy evaluation (any window) and the full evaluation are bounded by `evalB`, except for the exact mate score
+    of a checkmate -/
 theorem eval_bound {blend : Blend} {p : Position} (hp : Inv p) (hb : BlendBounded blend pstMaxAbs) :
     (∀ c, pieceSquareScore blend p = .ok c → c.natAbs ≤ evalB) ∧
     (∀ (d α β x : Int), lazyEvaluate blend p d α β = .ok x → x = Gen.LostScore + d ∨ x.natAbs ≤ evalB) ∧
@@ -496,8 +640,5 @@ theorem evalRange_of_inv {blend : Blend} {G : Position → Prop} (hG : ∀ p, G 
 
 /-- the largest admissible depth bound on the current constants is `−Lost − evalB`; 10000 is far inside -/
 theorem depth_10000_ok : Gen.LostScore + ((10000 : Nat) : Int) ≤ -(evalB : Int) := by decide +kernel
-
-/-- trivial blends that satisfy the parameter assumption (non-vacuity) -/
-theorem blendBounded_mid (B : Nat) : BlendBounded (fun _ m _ => m) B := fun _ _ _ h _ => h
 
 end Magog.Lemmas.EvalBound
